@@ -280,7 +280,6 @@ package websocket
 //@ pure
 //@ ensures result != nil
 
-
 //@ func (*messageReader).Read
 //@ tags C03 C05 C07 C08
 //@ bind ft,aerr after call:advanceFrame#1
@@ -310,7 +309,6 @@ package websocket
 //@ loop 1 increases c.br.g_rd unless c.readErr != nil
 //@ ghost before call:Read#1: c.g_rpos := c.readMaskPos
 //@ ghost before call:Read#1: c.g_rrem := c.readRemaining
-
 
 // ReadMessage allocates nothing itself: the payload buffer is grown by
 // io.ReadAll as bytes arrive, never from the length a frame header announces.
@@ -616,7 +614,6 @@ package websocket
 //@ loop 1 invariant forall(i, 0, len(p), p[i] == c.g_app[c.g_acc + i])
 //@ loop 1 decreases len(p)
 //@ ghost after call:copy#1: c.g_acc := c.g_acc + ret
-
 
 // ReadFrom: the bytes the source hands over become application bytes of the
 // message (ghost: appended to g_app at g_acc) the moment Read returns them.
